@@ -216,16 +216,32 @@ def run_check(pid: str, tier: str, seed: int, only, scale: float) -> int:
 
     ctx = mp.get_context("spawn")
     results = []
+    timed_out = []
     if tasks:
-        with ProcessPoolExecutor(max_workers=min(16, len(tasks)), mp_context=ctx, initializer=core.worker_init) as ex:
-            futs = [(t, ex.submit(core.worker_task, t)) for t in tasks]
-            for t, f in futs:
+        # wall-clock guard: a task that does not come back (e.g. a LAPACK routine looping on a non-finite matrix) is
+        # abandoned and reported as *inconclusive* in the evidence - never a verdict
+        guard = float(os.environ.get("VERIF_WALL_GUARD", "900" if tier == "quick" else "14400"))
+        ex = ProcessPoolExecutor(max_workers=min(16, len(tasks)), mp_context=ctx, initializer=core.worker_init)
+        futs = [(t, ex.submit(core.worker_task, t)) for t in tasks]
+        deadline = time.time() + guard
+        for t, f in futs:
+            try:
+                results.append((t, f.result(timeout=max(1.0, deadline - time.time()))))
+            except TimeoutError:
+                timed_out.append(t)
+            except Exception as e:  # noqa: BLE001
+                r = core.ShardResult()
+                r.errors.append({"sub": t["sub"], "traceback": f"worker died: {e!r}", "case": None})
+                results.append((t, r))
+        if timed_out:
+            for p_ in list(getattr(ex, "_processes", {}).values()):
                 try:
-                    results.append((t, f.result()))
-                except Exception as e:  # noqa: BLE001
-                    r = core.ShardResult()
-                    r.errors.append({"sub": t["sub"], "traceback": f"worker died: {e!r}", "case": None})
-                    results.append((t, r))
+                    p_.kill()
+                except Exception:  # noqa: BLE001
+                    pass
+            ex.shutdown(wait=False, cancel_futures=True)
+        else:
+            ex.shutdown(wait=True)
     for sub in custom:
         try:
             r = sub.custom(tier, core.derive_seed(seed, pid, sub.name))
@@ -308,6 +324,7 @@ def run_check(pid: str, tier: str, seed: int, only, scale: float) -> int:
                 for name, r in per_sub.items()
             },
             "witness_replays": n_witness,
+            "inconclusive_tasks_abandoned_by_wall_guard": [f"{t['sub']}#{t.get('seed', t.get('range'))}" for t in timed_out],
             "known_findings_reproduced": dict(known_hits),
             "scale": scale,
         },
@@ -330,6 +347,8 @@ def run_check(pid: str, tier: str, seed: int, only, scale: float) -> int:
           f"{sum(total.discards.values())} discarded, {n_witness} witness replays, {wall:.1f}s")
     for name, r in per_sub.items():
         print(f"  {name}: {r.evaluations} cases, {len(r.nontrivial)} non-trivial, discards={dict(r.discards)} fails={dict(r.failure_counts)}")
+    if timed_out:
+        print(f"note: {len(timed_out)} task(s) abandoned by the wall-clock guard (inconclusive, not a verdict): {sorted({t['sub'] for t in timed_out})}")
     if harness_errors:
         print(f"HARNESS-ERROR {len(harness_errors)} harness errors; first:")
         print(harness_errors[0].get("traceback", "")[-2500:])
